@@ -66,7 +66,7 @@ func gen(r *hx.Rng) Uni {
 	if r.Intn(10) < 4 {
 		pc = W/3 + 1 + uint64(r.Intn(int(W-W/3)))
 	}
-	u.Init = Change{PC: pc, Cert: pc, Vals: vs}
+	u.Init = Change{PC: pc, Cert: pc, Vals: vs, Standby: []uint32{}}
 	// Byzantine validators: weight < W/3
 	byz := map[uint32]bool{}
 	bw := uint64(0)
@@ -140,7 +140,7 @@ func gen(r *hx.Rng) Uni {
 				for i := 0; i < n; i++ {
 					nv = append(nv, Val{A: uint32(base + i), W: 1})
 				}
-				b.Chg = &Change{PC: uint64(n)*2/3 + 1, Cert: uint64(n)*2/3 + 1, Vals: nv}
+				b.Chg = &Change{PC: uint64(n)*2/3 + 1, Cert: uint64(n)*2/3 + 1, Vals: nv, Standby: []uint32{}}
 			}
 			// the chain itself must accept the header (no contradiction with the chain, no error)
 			c := Case{Batch: batch, GH: 0, Init: u.Init, Blocks: append(append([]Block{}, full...), b), Commit: true}
